@@ -542,7 +542,7 @@ BOUNDS = {
     "waiting target before any one of the initiator's requests of a 3-exchange "
     "conversation: target without DID / frame with DID, target with DID / "
     "other DID, target with DID / frame without DID, 0 faults (1 fault for "
-    "the first configuration); one conversation ended by field-off instead of release; one variant with a 77.5 ms deadline (RWT 77.33 ms)",
+    "the first configuration); one conversation ended by field-off instead of release; one variant with a 77.5 ms deadline (RWT 77.33 ms); added later: a lost frame followed by a corrupted attention response; the target application calls send_timeout_extension() (RTOX 1..12, symbolic) before replies, with one fault",
     "thorough": "as quick with <= 3 faults for all 36 length pairs "
     "{1, miu-1, miu, miu+1, 2miu, 2miu+1}^2 of one exchange in both framings, "
     "2..4 exchanges with <= 2 faults (<= 3 for five of them, <= 4 for two "
